@@ -825,7 +825,37 @@ def gen_steps(rng, nodespec, nsteps):
 # running a case on the real code, collecting observations and oracle tables
 # ----------------------------------------------------------------------------------------
 class Oracle:
+    step = 0
+
+    def tree_of(self, m, attr, dt):
+        """datatype tree for the C01 model, None when the datatype is outside its fragment (LimitsType, StatusType, custom)"""
+        from vlib import dtcodec
+        key = (m, attr)
+        if key not in self.trees:
+            try:
+                self.trees[key] = dtcodec.dt_to_tree(dt)
+            except Exception:
+                self.trees[key] = None
+        return self.trees[key]
+
+    def accept_row(self, m, attr, dt, payload, cur, r):
+        """hand the row to the Lean side in the C01 encoding, so that `acceptWire` is recomputed there"""
+        from vlib import dtcodec
+        if self.tree_of(m, attr, dt) is None:
+            self.count_outside += 1
+            return
+        if not (dtcodec.is_json_value(payload) and dtcodec.encodable(payload) and dtcodec.encodable(cur)):
+            return
+        try:
+            res = {'ok': dtcodec.py_to_json(r[1])} if r[0] == 'ok' else {'err': r[1]}
+            self.ck.append([self.step, m, attr, dtcodec.py_to_json(payload), dtcodec.py_to_json(cur), res])
+        except Exception:
+            pass
+
     def __init__(self):
+        self.trees = {}
+        self.ck = []
+        self.count_outside = 0
         self.t = {k: {} for k in ('accept', 'reval', 'convert', 'export', 'cmdaccept', 'cmdconvert', 'cmdexport',
                                   'le', 'lt', 'split', 'chk')}
 
@@ -871,6 +901,7 @@ def param_oracle(orc, box, modobj, mycls, attr, pobj, payload, kind, raws):
     if kind == 'change':
         r = oracle_call(lambda: datainfo_validate(dt)(dt.import_value(payload), previous=cur))
         orc.put('accept', [m, attr, canonj(payload), canon(cur)], orc.res(r))
+        orc.accept_row(m, attr, dt, payload, cur, r)
         if r[0] == 'ok':
             v = r[1]
             exp_safe(v)
@@ -999,6 +1030,7 @@ def run_case(nodespec, steps):
         box.returned = []
         box.script = {'kind': st['script'], 'n': n}
         box.rng = random.Random(st['seed'])
+        orc.step = n
         before = cache_rows(node)
         kind, spec, data = st['kind'], st['spec'], st['data']
         # python objects needed for the oracle are those of BEFORE the request
@@ -1052,7 +1084,9 @@ def run_case(nodespec, steps):
         wire_data = canonj(data) if kind == 'change' else (None if data is None else canonj(data)) if kind == 'do' else bool(data)
         out_steps.append({'req': [kind, spec if spec is not None else None, wire_data], 'drv': drv, 'obs': obs,
                           'pyclass': reply[2][1] if reply and reply[0].startswith('error_') else None})
-    return {'node': nj, 'steps': out_steps, 'oracle': orc.json(), 'errors': []}
+    return {'node': nj, 'steps': out_steps, 'oracle': orc.json(), 'errors': [],
+            'dtrees': [[m, a, t] for (m, a), t in orc.trees.items() if t is not None], 'acceptck': orc.ck,
+            'accept_outside_model': orc.count_outside}
 
 
 def _script_exc(box, st, n):
@@ -1075,7 +1109,8 @@ def gen_case(seed, big):
 def model_and_judge(ctx, rec):
     base = {'p': PID, 'node': rec['node'], 'oracle': rec['oracle']}
     return [dict(base, k='history', steps=[{'req': s['req'], 'drv': s['drv']} for s in rec['steps']]),
-            dict(base, k='judge', steps=[{'req': s['req'], 'obs': s['obs']} for s in rec['steps']])]
+            dict(base, k='judge', steps=[{'req': s['req'], 'obs': s['obs']} for s in rec['steps']],
+                 dtrees=rec.get('dtrees', []), acceptck=rec.get('acceptck', []))]
 
 
 def compare(model_out, rec):
@@ -1105,6 +1140,8 @@ def sig_of(rec, idx, why):
     kind = st['req'][0]
     called = 'call' if obs['calls'] else 'nocall'
     rep = obs['reply'][0] if obs['reply'][0] != 'error' else obs['reply'][1]
+    if why.startswith('accept-oracle'):
+        return 'C04:accept-differs-from-datatype-model'
     want = why.split(' ')[0] + (':' + why.split(' ')[1] if why.startswith('refuse') else '')
     return 'C04:%s:%s:%s:want-%s' % (kind, called, rep, want)
 
@@ -1166,6 +1203,8 @@ def run(ctx):
         res.count('oracle.hook-results.pass', sum(1 for r in rec['oracle']['chk'] if r[-1] == 'pass'))
         res.count('oracle.hook-results.stop', sum(1 for r in rec['oracle']['chk'] if r[-1] == 'stop'))
         res.count('oracle.hook-results.raise', sum(1 for r in rec['oracle']['chk'] if isinstance(r[-1], list)))
+        res.count('accept-rows.recomputed-by-datatype-model', len(rec.get('acceptck', [])))
+        res.count('accept-rows.outside-model(LimitsType...)', rec.get('accept_outside_model', 0))
         res.count('oracle.accept.ok', sum(1 for r in rec['oracle']['accept'] if r[-1][0] == 'ok'))
         res.count('oracle.accept.err', sum(1 for r in rec['oracle']['accept'] if r[-1][0] != 'ok'))
         if any(st['req'][0] == 'change' and any(c[0] == 'write' for c in st['obs']['calls']) for st in rec['steps']) \
